@@ -100,10 +100,29 @@ pub struct Run<'a> {
     pub rlimit_fsize: Option<u64>,
 }
 
+thread_local! {
+    /// Leftover of an earlier, killed process *with the process id the next child will have*:
+    /// (path prefix, contents) - the file `<prefix>.<pid>.tmp` is planted before `lace` starts.
+    pub static STALE_FOR_PID: std::cell::RefCell<Option<(PathBuf, Vec<u8>)>> = const { std::cell::RefCell::new(None) };
+}
+
 pub fn run_lace(scratch: &Scratch, run: &Run) -> Proc {
     let log_path = scratch.path(".shimlog");
     let _ = std::fs::remove_file(&log_path);
-    let mut cmd = Command::new(lace_bin());
+    let stale = STALE_FOR_PID.with(|s| s.borrow_mut().take());
+    let mut cmd = match &stale {
+        // A shell plants the file under its own process id and then becomes `lace` (exec keeps
+        // the id); the shim is only loaded at that point, so the planting is not counted
+        Some(_) => {
+            let mut c = Command::new("/bin/sh");
+            c.arg("-c")
+                .arg("printf '%s' \"$STALE_JUNK\" > \"$STALE_PREFIX.$$.tmp\"; if [ -n \"$SHIM\" ]; then exec env LD_PRELOAD=\"$SHIM\" \"$@\"; else exec \"$@\"; fi")
+                .arg("sh")
+                .arg(lace_bin());
+            c
+        }
+        None => Command::new(lace_bin()),
+    };
     cmd.args(&run.args)
         .current_dir(run.cwd)
         .env_clear()
@@ -114,8 +133,11 @@ pub fn run_lace(scratch: &Scratch, run: &Run) -> Proc {
         // Pipes, not files: RLIMIT_FSIZE must only bite the files the program writes itself
         .stdout(Stdio::piped())
         .stderr(Stdio::piped());
+    if let Some((prefix, junk)) = &stale {
+        cmd.env("STALE_PREFIX", prefix).env("STALE_JUNK", String::from_utf8_lossy(junk).into_owned());
+    }
     if let Some(plan) = &run.plan {
-        cmd.env("LD_PRELOAD", shim_path())
+        cmd.env(if stale.is_some() { "SHIM" } else { "LD_PRELOAD" }, shim_path())
             .env("FAULTFS_PLAN", plan)
             .env("FAULTFS_LOG", &log_path)
             .env("FAULTFS_DIR", run.watch.unwrap_or(&scratch.dir));
